@@ -165,6 +165,11 @@ EventViol(m, m1, s1, dr, e) ==
    THEN {V("CloseHang", e, "future still pending after the peer closed") : t \in SeqSet(e.pending)}
    ELSE {})
   \cup
+  (* every request on the wire has been answered, the send side is free, and a call of rpc() is still pending: it *)
+  (* waits for the caller to collect earlier replies - a caller that sends everything first waits for ever        *)
+  (IF e.ev = "stuckcheck" /\ e.caller_busy /\ m.mode = "free" /\ ~m.faulty /\ SeqSet(m.seen) \subseteq m.answered
+   THEN {V("CallerStuck", e, "rpc() does not return until earlier reply futures are polled")} ELSE {})
+  \cup
   (IF e.ev = "panic" THEN {V("Panic", e, e.msg)} ELSE {})
 
 (* `viol` keeps one record per (rule, discriminator): the first case that showed it and a count *)
